@@ -5,6 +5,7 @@ Theorems over `deleteLexicon` / `removeLexicon` (`Model/Remove.lean`) for every 
 -/
 import WnVerif.Model.Remove
 import WnVerif.Gen.Schema
+import WnVerif.Model.Add
 namespace WnVerif.Props.C05
 open WnVerif.Db
 
@@ -585,6 +586,55 @@ theorem C05_remove_no_dangling_base (db : Db) (l : Nat) (hf : db.exts.length < d
     exact hnot (C05_extensions_closed db l _ hf b (Or.inr hbl) _ hdir)
   · intro hbx
     exact hnot (C05_extensions_closed db l _ hf b (Or.inl hbx) _ hdir)
+
+/-! ### the removed lexicon can be added again; dependency links follow what is installed -/
+
+/-- after `remove()` of the lexicon row `x`, no row with its (id, version) is left — `_precheck` will
+not skip it, and `_insert_lexicon` will not hit the UNIQUE(id, version) constraint — provided the
+store respected that constraint -/
+theorem C05_can_be_added_again (db : Db) (x : RLexicon)
+    (huniq : ∀ y ∈ db.lexicons, y.id = x.id → y.version = x.version → y.rowid = x.rowid) :
+    lexiconRow (removeLexicon db x.rowid) x.id x.version = none := by
+  unfold lexiconRow
+  rw [Option.map_eq_none_iff, List.find?_eq_none]
+  intro y hy
+  rw [C05_remove_lexicons] at hy
+  simp only [List.mem_filter, Bool.and_eq_true, bne_iff_ne, ne_eq] at hy
+  intro hc
+  simp only [Bool.and_eq_true, beq_iff_eq] at hc
+  exact hy.2.1 (huniq y hy.1 hc.1 hc.2)
+
+/-- adding a lexicon links every waiting dependency on it (same id and version) to the new row, and
+leaves every other dependency row as it was -/
+theorem C05_dependencies_relinked (db db' : Db) (l : Doc.Lexicon) (lexid extid : Nat)
+    (h : insertLexicon db l = .ok (db', lexid, extid)) (d : RDep) (hd : d ∈ db.deps) :
+    (if d.pid = l.id ∧ d.pver = l.version then { d with provider := some lexid } else d) ∈ db'.deps := by
+  unfold insertLexicon at h
+  simp only [bind, Except.bind, pure, Except.pure] at h
+  have key : (if d.pid = l.id ∧ d.pver = l.version then { d with provider := some lexid } else d) ∈
+      db.deps.map (fun d => if d.pid == l.id && d.pver == l.version then { d with provider := some lexid } else d) := by
+    refine List.mem_map.mpr ⟨d, hd, ?_⟩
+    by_cases hc : d.pid = l.id ∧ d.pver = l.version
+    · simp [hc.1, hc.2]
+    · have : (d.pid == l.id && d.pver == l.version) = false := by
+        simp only [Bool.and_eq_false_iff, beq_eq_false_iff_ne]
+        by_cases h1 : d.pid = l.id
+        · right; exact fun h2 => hc ⟨h1, h2⟩
+        · left; exact h1
+      simp [this, hc]
+  split at h
+  · simp [throw, throwThe, MonadExcept.throw] at h
+  · split at h
+    · split at h
+      · simp at h
+      · simp only [Except.ok.injEq, Prod.mk.injEq] at h
+        obtain ⟨h1, h2, _⟩ := h
+        subst h1 h2
+        exact List.mem_append_left _ key
+    · simp only [Except.ok.injEq, Prod.mk.injEq] at h
+      obtain ⟨h1, h2, _⟩ := h
+      subst h1 h2
+      exact List.mem_append_left _ key
 
 /-! ### frame: rows that reference nothing removed survive unchanged -/
 theorem C05_entry_survives_iff (db : Db) (l : Nat) (r : REntry) :
